@@ -336,6 +336,37 @@ def kmer_lemmas(F, rep, tystr, which=None, slice_cap=32):
                                     pos, n, pos, pos + n))
                 guarded(rep, "L-slice", "%s/pos=%d/n=%d" % (tag, pos, n), "set_slice_mut(%d,%d)" % (pos, n), f)
 
+    # the immutable forms (MerImmut, blanket-implemented): the same writes on a copy, the receiver untouched
+    if want("set") and kt.key("MerImmut", "set") in F.insts:
+        for pos in sorted({0, 1, K // 2, K - 1} & set(range(K))):
+            def f(pos=pos):
+                sr = self_ref()
+                r, _ = run_inst(F, kt.key("MerImmut", "set"), [sr, usize(pos), base_arg()])
+                hi, lo = kt.lane_bits(pos)
+                spec = list(S)
+                spec[lo], spec[hi] = var("v", 0), var("v", 1)
+                ok = expect_bits(rep, "L-set", "%s/immut/pos=%d" % (tag, pos), kt.storage_of(r), spec, "set(%d, v) returns the k-mer with exactly base %d replaced" % (pos, pos))
+                if ok:
+                    expect_bits(rep, "L-set", "%s/immut-self/pos=%d" % (tag, pos), kt.storage_of(sr.cell.v), list(S), "set(%d, v) leaves the receiver unchanged" % pos)
+            guarded(rep, "L-set", "%s/immut/pos=%d" % (tag, pos), "set(%d)" % pos, f)
+    if want("slice") and kt.key("MerImmut", "set_slice") in F.insts:
+        V = in_bits("val", 64, 64)
+        pairs = sorted({(pos, n) for pos in (0, 1, 2, K - 2, K - 1) for n in (1, 2, 3, K) if 0 <= pos < K and 1 <= n <= min(slice_cap, K - pos)})
+        for pos, n in pairs:
+            def f(pos=pos, n=n):
+                sr = self_ref()
+                r, _ = run_inst(F, kt.key("MerImmut", "set_slice"), [sr, usize(pos), usize(n), Int(64, False, bits=V)])
+                spec = list(S)
+                for t in range(n):
+                    hi, lo = kt.lane_bits(pos + t)
+                    spec[hi], spec[lo] = V[63 - 2 * t], V[62 - 2 * t]
+                ok = expect_bits(rep, "L-slice", "%s/immut/pos=%d/n=%d" % (tag, pos, n), kt.storage_of(r), spec,
+                                 "set_slice(%d, %d, value) returns the k-mer with exactly bases %d..%d written from the top lanes of value" % (pos, n, pos, pos + n))
+                if ok:
+                    expect_bits(rep, "L-slice", "%s/immut-self/pos=%d/n=%d" % (tag, pos, n), kt.storage_of(sr.cell.v), list(S),
+                                "set_slice(%d, %d, value) leaves the receiver unchanged" % (pos, n))
+            guarded(rep, "L-slice", "%s/immut/pos=%d/n=%d" % (tag, pos, n), "set_slice(%d,%d)" % (pos, n), f)
+
     # rc
     if want("rc"):
         def f():
